@@ -28,18 +28,33 @@ type applyRec struct {
 	prev    uint64
 	ver     uint64
 	count   uint64 // number of updates applied including this one
+	cid     uint64 // client session id and series id the entry was proposed with (0,0 = NoOP session)
+	series  uint64
 }
 
 // recorder collects what the state machines of one history observe.
 type recorder struct {
-	mu      sync.Mutex
-	applies []applyRec
-	live    map[uint64]*kvSM // replica -> current incarnation
-	bad     []string         // state machine level anomalies (malformed cmd, ...)
-	slow    map[uint64]time.Duration // replica -> dwell of a slow Update (about one in three)
+	mu       sync.Mutex
+	applies  []applyRec
+	live     map[uint64]*kvSM         // replica -> current incarnation
+	bad      []string                 // state machine level anomalies (malformed cmd, ...)
+	slow     map[uint64]time.Duration // replica -> dwell of a slow Update (about one in three)
+	disks    map[uint64]*disk         // replica -> what its on-disk state machine has persisted
+	streams  int                      // RecoverFromSnapshot calls of on-disk state machines (streamed snapshots)
+	recovers int                      // RecoverFromSnapshot calls of the in-memory kinds
 }
 
-func newRecorder() *recorder { return &recorder{live: map[uint64]*kvSM{}} }
+// disk is the persistent store of one replica's on-disk state machine; it
+// survives the NodeHost (a restarted replica opens it again).
+type disk struct {
+	m     map[uint64]cell
+	count uint64
+	last  uint64
+}
+
+func newRecorder() *recorder {
+	return &recorder{live: map[uint64]*kvSM{}, disks: map[uint64]*disk{}}
+}
 
 type kvSM struct {
 	rec     *recorder
@@ -60,12 +75,16 @@ func (r *recorder) factory() sm.CreateStateMachineFunc {
 	}
 }
 
-// cmd = id(8) key(8) val(8), big endian
-func encodeCmd(id, key, val uint64) []byte {
-	b := make([]byte, 24)
+const cmdLen = 40
+
+// cmd = id(8) key(8) val(8) client-session-id(8) series-id(8), big endian
+func encodeCmd(id, key, val, cid, series uint64) []byte {
+	b := make([]byte, cmdLen)
 	binary.BigEndian.PutUint64(b, id)
 	binary.BigEndian.PutUint64(b[8:], key)
 	binary.BigEndian.PutUint64(b[16:], val)
+	binary.BigEndian.PutUint64(b[24:], cid)
+	binary.BigEndian.PutUint64(b[32:], series)
 	return b
 }
 
@@ -81,7 +100,7 @@ func (s *kvSM) dwell(index uint64) {
 
 func (s *kvSM) Update(e sm.Entry) (sm.Result, error) {
 	s.dwell(e.Index)
-	if len(e.Cmd) != 24 {
+	if len(e.Cmd) != cmdLen {
 		s.rec.mu.Lock()
 		s.rec.bad = append(s.rec.bad, "update with malformed cmd")
 		s.rec.mu.Unlock()
@@ -90,6 +109,8 @@ func (s *kvSM) Update(e sm.Entry) (sm.Result, error) {
 	id := binary.BigEndian.Uint64(e.Cmd)
 	k := binary.BigEndian.Uint64(e.Cmd[8:])
 	v := binary.BigEndian.Uint64(e.Cmd[16:])
+	cid := binary.BigEndian.Uint64(e.Cmd[24:])
+	series := binary.BigEndian.Uint64(e.Cmd[32:])
 	s.mu.Lock()
 	old := s.m[k]
 	nw := cell{val: v, ver: old.ver + 1}
@@ -104,7 +125,7 @@ func (s *kvSM) Update(e sm.Entry) (sm.Result, error) {
 	s.last = e.Index
 	s.mu.Unlock()
 	s.rec.mu.Lock()
-	s.rec.applies = append(s.rec.applies, applyRec{replica: s.replica, index: e.Index, id: id, key: k, val: v, prev: old.val, ver: nw.ver, count: cnt})
+	s.rec.applies = append(s.rec.applies, applyRec{replica: s.replica, index: e.Index, id: id, key: k, val: v, prev: old.val, ver: nw.ver, count: cnt, cid: cid, series: series})
 	s.rec.mu.Unlock()
 	data := make([]byte, 8)
 	binary.BigEndian.PutUint64(data, old.val)
@@ -173,6 +194,9 @@ func (s *kvSM) RecoverFromSnapshot(r io.Reader, _ []sm.SnapshotFile, _ <-chan st
 	for i := 0; i < n; i++ {
 		s.m[get(3+3*i)] = cell{val: get(4 + 3*i), ver: get(5 + 3*i)}
 	}
+	s.rec.mu.Lock()
+	s.rec.recovers++
+	s.rec.mu.Unlock()
 	return nil
 }
 
@@ -189,7 +213,6 @@ func (s *kvSM) state() (uint64, [][3]uint64) {
 	sort.Slice(out, func(i, j int) bool { return out[i][0] < out[j][0] })
 	return s.count, out
 }
-
 
 // kvCSM is the same register map as a concurrent state machine: dragonboat does
 // not serialise Lookup with Update, a read index released before the entries it
@@ -233,3 +256,108 @@ func (c kvCSM) SaveSnapshot(ctx interface{}, w io.Writer, _ sm.ISnapshotFileColl
 type sliceWriter []byte
 
 func (b *sliceWriter) Write(p []byte) (int, error) { *b = append(*b, p...); return len(p), nil }
+
+// kvDSM is the register map as an on-disk state machine: its state lives in
+// recorder.disks and survives the NodeHost; Open reports the index of the last
+// update it holds, a lagging or joining replica is caught up by a snapshot that
+// the leader streams from its live state.
+type kvDSM struct{ *kvSM }
+
+func (r *recorder) onDiskFactory() sm.CreateOnDiskStateMachineFunc {
+	return func(shardID uint64, replicaID uint64) sm.IOnDiskStateMachine {
+		s := &kvSM{rec: r, replica: replicaID, m: map[uint64]cell{}}
+		r.mu.Lock()
+		r.live[replicaID] = s
+		r.mu.Unlock()
+		return kvDSM{s}
+	}
+}
+
+func (d kvDSM) persist() {
+	s := d.kvSM
+	s.mu.Lock()
+	m := make(map[uint64]cell, len(s.m))
+	for k, v := range s.m {
+		m[k] = v
+	}
+	dk := &disk{m: m, count: s.count, last: s.last}
+	s.mu.Unlock()
+	s.rec.mu.Lock()
+	s.rec.disks[s.replica] = dk
+	s.rec.mu.Unlock()
+}
+
+func (d kvDSM) Open(<-chan struct{}) (uint64, error) {
+	s := d.kvSM
+	s.rec.mu.Lock()
+	dk := s.rec.disks[s.replica]
+	s.rec.mu.Unlock()
+	if dk == nil {
+		return 0, nil
+	}
+	s.mu.Lock()
+	defer s.mu.Unlock()
+	s.m = make(map[uint64]cell, len(dk.m))
+	for k, v := range dk.m {
+		s.m[k] = v
+	}
+	s.count, s.last = dk.count, dk.last
+	return s.last, nil
+}
+
+func (d kvDSM) Update(ents []sm.Entry) ([]sm.Entry, error) {
+	for i := range ents {
+		res, err := d.kvSM.Update(ents[i])
+		if err != nil {
+			return nil, err
+		}
+		ents[i].Result = res
+	}
+	d.persist()
+	return ents, nil
+}
+
+func (d kvDSM) Sync() error { return nil }
+
+func (d kvDSM) PrepareSnapshot() (interface{}, error) {
+	var b sliceWriter
+	if err := d.kvSM.SaveSnapshot(&b, nil, nil); err != nil {
+		return nil, err
+	}
+	return []byte(b), nil
+}
+
+func (d kvDSM) SaveSnapshot(ctx interface{}, w io.Writer, _ <-chan struct{}) error {
+	_, err := w.Write(ctx.([]byte))
+	return err
+}
+
+func (d kvDSM) RecoverFromSnapshot(r io.Reader, _ <-chan struct{}) error {
+	if err := d.kvSM.RecoverFromSnapshot(r, nil, nil); err != nil {
+		return err
+	}
+	d.persist()
+	d.rec.mu.Lock()
+	d.rec.recovers--
+	d.rec.streams++
+	d.rec.mu.Unlock()
+	return nil
+}
+
+// witnessSM is what a witness replica is started with; it is never given an update.
+type witnessSM struct{ rec *recorder }
+
+func (w witnessSM) Update(sm.Entry) (sm.Result, error) {
+	w.rec.mu.Lock()
+	w.rec.bad = append(w.rec.bad, "a witness replica was given an update")
+	w.rec.mu.Unlock()
+	return sm.Result{}, nil
+}
+func (w witnessSM) Lookup(interface{}) (interface{}, error) { return nil, errors.New("witness") }
+func (w witnessSM) SaveSnapshot(io.Writer, sm.ISnapshotFileCollection, <-chan struct{}) error {
+	return nil
+}
+func (w witnessSM) RecoverFromSnapshot(io.Reader, []sm.SnapshotFile, <-chan struct{}) error {
+	return nil
+}
+func (w witnessSM) Close() error { return nil }
